@@ -1,12 +1,18 @@
 (* C03  A whole-value reference yields the final rendered value at its path.  Statements only;
-   proofs in Proofs/RefFacts.v, StateIndep.v, Mono.v, InterpFacts.v about Model/Interp.v.
-   PARTIAL: the general statement for multi-segment paths (a:b:c, where intermediate segments
-   are themselves references or multi-layer values, looked up "on the fly") needs the
-   commutation "lookup after full interpolation = interpolation after on-the-fly lookup", which
-   is not proved; it is covered by the self-consistency oracle out[k] == out@path of the check
-   on every run.  Proved: the single-segment case in full, result uniqueness (state / fuel /
-   order independence of successful results), and the error for a missing key. *)
-From RV Require Import Model.Interp Proofs.WfFacts Proofs.InterpFacts Proofs.StateIndep Proofs.Mono Proofs.RefFacts.
+   proofs in Proofs/PathFacts.v, Layered.v, RefFacts.v, StateIndep.v, Mono.v, InterpFacts.v about
+   Model/Interp.v.
+   The general statement is proved (C03_reference_is_lookup_in_the_rendered_parameters): for a
+   path of any length, assembled from any tokens (nested references included), what ${path}
+   renders to is what looking the segments up in the *rendered* parameters finds -- through
+   plain mappings, through references and through multiply-defined (layered) mappings.  The
+   commutation "lookup after full interpolation = interpolation after on-the-fly lookup" is the
+   walk lemma of PathFacts.v; its core is that merging raw layers and merging their renders run
+   in lockstep (same keys, flags and layer structure).  Hypothesis: the parameters are layered
+   (no ValueList nested inside a value), which holds for every merge of converted clean YAML
+   (C03_merged_parameters_are_layered).  Also proved: result uniqueness (state / fuel / order
+   independence of successful results), closedness, the error for a missing key. *)
+From RV Require Import Model.Yaml Model.Interp Proofs.WfFacts Proofs.InterpFacts Proofs.StateIndep Proofs.Mono Proofs.RefFacts
+     Proofs.YamlFacts Proofs.PathFacts Proofs.Refinement Proofs.Layered.
 
 (** A parameter whose whole value is a reference ${k} to a top-level parameter renders to exactly
     what k's own value renders to -- same kind, same data -- whatever the state (position in
@@ -20,6 +26,27 @@ Theorem C03_whole_reference_is_the_rendered_target :
     r = rk.
 Proof. exact whole_reference_is_target_render. Qed.
 Eval cbv in "ASSUMPTIONS-OF C03_whole_reference_is_the_rendered_target"%string. Print Assumptions C03_whole_reference_is_the_rendered_target.
+
+(** The general case: a reference whose path (assembled from any tokens, nested references
+    included) has any number of segments renders to exactly what looking those segments up in
+    the fully rendered parameters finds -- same kind, same data. *)
+Theorem C03_reference_is_lookup_in_the_rendered_parameters :
+  forall root, wf (VMap root) -> layered root ->
+  forall F parts st r st' F' out,
+    token_render F root (TRef parts) st = Ok (r, st') ->
+    render_with_self F' (VMap root) = Ok (VMap out) ->
+    exists f path, token_slice f root parts (with_depth st (S (depth st))) = Ok path /\
+                   lookup (split_on ":" path) (VMap out) = Some r.
+Proof. intros root Hw Hl F parts st r st' F' out. exact (reference_is_lookup_in_rendered root Hw F parts st r st' F' out Hl). Qed.
+Eval cbv in "ASSUMPTIONS-OF C03_reference_is_lookup_in_the_rendered_parameters"%string. Print Assumptions C03_reference_is_lookup_in_the_rendered_parameters.
+
+(** The hypothesis holds for what the code builds: merging any stack of clean layers (and
+    Mapping::merge in general) yields layered parameters. *)
+Theorem C03_merged_parameters_are_layered :
+  forall ys m0 m, Forall clean_layer ys -> layered m0 ->
+    foldM (fun acc y => m <- try_mapping_of_yaml y ;; mapping_merge acc m) ys m0 = Ok m -> layered m.
+Proof. exact stack_layered. Qed.
+Eval cbv in "ASSUMPTIONS-OF C03_merged_parameters_are_layered"%string. Print Assumptions C03_merged_parameters_are_layered.
 
 (** The rendered value of anything is unique: it does not depend on the resolution state (so
     not on where, after what, or in which order of keys it is rendered) nor on the fuel. *)
@@ -62,5 +89,9 @@ Example C03_nonvacuous :
                                             VMap [mk_entry (VStr "y") (VSeq [VBool true]) false false];
                                             VMap [mk_entry (VStr "x") (VNum (NInt 3)) false false]]) false false ] in
   exists m, render_with_self 60 (VMap root) = Ok (VMap m) /\
-    m_get (VStr "r") m = m_get (VStr "t") m /\ m_get (VStr "p") m = Some (VSeq [VBool true]).
-Proof. cbn zeta. eexists. split; [vm_compute; reflexivity|]. split; vm_compute; reflexivity. Qed.
+    m_get (VStr "r") m = m_get (VStr "t") m /\ m_get (VStr "p") m = Some (VSeq [VBool true]) /\
+    layered root /\ lookup ["t"; "y"] (VMap m) = Some (VSeq [VBool true]).
+Proof.
+  cbn zeta. eexists. split; [vm_compute; reflexivity|]. split; [vm_compute; reflexivity|]. split; [vm_compute; reflexivity|].
+  split; [|vm_compute; reflexivity]. unfold layered. repeat constructor.
+Qed.
